@@ -11,9 +11,33 @@ PREFIX_OF = {"Header": "header_prefix", "BlockQuote": "quote_prefix", "Ul": "uno
 PREFIX_METHODS = tuple(m for m in PREFIX_OF.values() if m)
 
 
+def _unwrap_calls(s, names):
+    """remove wrapper calls `name(X)` -> `X` (balanced parentheses)"""
+    changed = True
+    while changed:
+        changed = False
+        for nm in names:
+            i = s.find(nm + "(")
+            if i < 0:
+                continue
+            j = i + len(nm) + 1
+            depth = 1
+            k = j
+            while k < len(s) and depth > 0:
+                depth += s[k] == "("
+                depth -= s[k] == ")"
+                k += 1
+            if depth == 0:
+                s = s[:i] + s[j:k - 1] + s[k:]
+                changed = True
+    return s
+
+
 def norm(s):
     import re
     s = re.sub(r"\{closure#\d+\}", "{closure}", s)
+    # iterating a slice of Copy values by reference, cloned or copied is the same sequence of values
+    s = _unwrap_calls(s, ("Iterator::cloned", "Iterator::copied"))
     return desat(s.replace(").0", ")").replace("arg1.", "").replace("_1.", ""))
 
 
@@ -104,12 +128,9 @@ def rule_wrap_width(ctx, rid):
     F = ctx.facts
     wn = F.call_sites(lambda cd, t: ends(cd, "WrappedBlock::<T>::new"))
     ctx.floor(rid, "WrappedBlock::new call sites", len(wn), 1)
-    for (b, bb, t) in wn:
-        pl = op_place(t["args"][0])
-        forms = _def_forms(b, pl)
-        okc = bool(forms) and all(f in ("width", "min(width,ww)", "min(ww,width)") for f in forms) and "width" in "".join(forms)
-        ctx.check(okc, rid, "block-width≤renderer-width@%s" % fn_key(b), t["span"], b.id,
-                  "block width computed as %s; must be width or min(_, width)" % forms)
+    cbw, tw, kinds = block_width_kinds(F)
+    ctx.check(len(wn) == 1 and kinds in (["min", "width"], ["map_or-min"]), rid, "block-width≤renderer-width@%s" % fn_key(cbw), tw["span"], cbw.id,
+              "block width computed as %s; must be width or min(_, width)" % kinds)
         # `width` is the renderer's width: get_wrapping_or_insert's callers pass self.width
     gw = F.one("get_wrapping_or_insert")
     cs = F.call_sites(lambda cd, t: cd == gw.id)
@@ -121,6 +142,55 @@ def rule_wrap_width(ctx, rid):
         ws = options.writes(F, owner, name)
         ctx.check(not ws, rid, "%s.width:no-writer-after-construction" % owner.split("::")[-1], "", "",
                   "%s" % [(b.id, site(b, bb, w)) for b, bb, w, _ in ws])
+
+
+def block_width_kinds(F):
+    """How the closure in get_wrapping_or_insert computes the width of a new WrappedBlock, classified semantically:
+    'width' (the renderer width handed in), 'min' (min(wrap_width value, width)), 'map_or-min'
+    (wrap_width.map_or(width, |m| min(m, width))), or '?<canonical form>'.  Returns (closure body, call term, kinds)."""
+    gw = F.one("get_wrapping_or_insert")
+    cls = [cb for _bb, _i, cb, _o, _f in closure_bodies_created_in(F, gw) if cb.calls(lambda cd, t: ends(cd, "WrappedBlock::<T>::new"))]
+    require(len(cls) == 1, "get_wrapping_or_insert builds the block in one closure")
+    cb = cls[0]
+    wn = cb.calls(lambda cd, t: ends(cd, "WrappedBlock::<T>::new"))
+    require(len(wn) == 1, "one WrappedBlock::new in get_wrapping_or_insert")
+    t = wn[0][1]
+    # the renderer width: the third parameter of get_wrapping_or_insert, captured by the closure
+    def is_width(c):
+        return c in ("up{&arg3}", "up{arg3}", "arg3")
+    pl = op_place(t["args"][0])
+    defs = [r for r in cb.defs()[pl["l"]] if r[0] in ("stmt", "call")] if pl is not None and is_bare(pl) else []
+    hops = 0
+    while len(defs) == 1 and defs[0][0] == "stmt" and "use" in defs[0][3]["rv"] and op_place(defs[0][3]["rv"]["use"]) is not None \
+            and is_bare(op_place(defs[0][3]["rv"]["use"])) and hops < 6 and not is_width(norm(cb.canon(defs[0][3]["rv"]["use"]))):
+        pl = op_place(defs[0][3]["rv"]["use"])
+        defs = [r for r in cb.defs()[pl["l"]] if r[0] in ("stmt", "call")]
+        hops += 1
+    kinds = []
+    block_width_kinds.last_defs = defs
+    for r in defs:
+        if r[0] == "stmt" and "use" in r[3]["rv"]:
+            c = norm(cb.canon(r[3]["rv"]["use"]))
+            kinds.append("width" if is_width(c) else "?" + c[:80])
+        elif r[0] == "call":
+            m = callee_method(r[2])
+            args = [norm(cb.canon(a)) for a in r[2]["args"]]
+            if m == "min" and len(args) == 2 and any(is_width(a) for a in args) and any("wrap_width" in a for a in args):
+                kinds.append("min")
+            elif m == "map_or" and len(args) == 3 and "wrap_width" in args[0] and is_width(args[1]):
+                okc = False
+                for (_b2, _i2, c2, _o2, _f2) in closure_bodies_created_in(F, cb):
+                    rets = [x for x in c2.defs().get(0, ()) if x[0] == "call" and callee_method(x[2]) == "min"]
+                    if len(rets) == 1 and len(c2.defs().get(0, ())) == 1:
+                        a2 = [norm(c2.canon(a)) for a in rets[0][2]["args"]]
+                        if "arg2" in a2 and any("arg3" in a for a in a2 if a != "arg2"):
+                            okc = True
+                kinds.append("map_or-min" if okc else "?map_or(%s)" % ", ".join(args)[:80])
+            else:
+                kinds.append("?%s(%s)" % (m, ", ".join(args)[:80]))
+        else:
+            kinds.append("?")
+    return cb, t, sorted(kinds)
 
 
 def _def_forms(b, pl):
@@ -524,6 +594,11 @@ def rule_min_size_matches_shrink(ctx, rid):
     ctx.check(ok_sh, rid, "shrink:charges-Σw+len(w)−1", b.span, b.id, str([e for _a, e in shrink]))
     # col_widths has one entry per col_sizes entry: every definition of W by a call is a collect over S
     for r in b.defs()[W]:
+        if r[0] == "call" and callee_method(r[2]) == "from_elem":
+            # vec![x; col_sizes.len()]: one entry per column by construction
+            cnt = norm(b.canon(r[2]["args"][1], env=env))
+            ctx.check(re.fullmatch(r"<T, A>::len\(&%s\)" % s_sym, cnt) is not None, rid, "col_widths:one-entry-per-column", r[2]["span"], b.id, cnt[:120])
+            continue
         if r[0] == "call":
             okc = callee_method(r[2]) == "collect" and s_sym.replace("\\", "") in b.canon(r[2]["args"][0], env=env) and \
                 not any(m in b.canon(r[2]["args"][0], env=env) for m in ("Iterator::filter", "Iterator::skip", "Iterator::take", "Iterator::chain"))
